@@ -114,6 +114,7 @@ pub const E_FOREIGN_INSTALL: usize = C_ENGINE_BASE + 38;
 pub const E_LONG_STALL: usize = C_ENGINE_BASE + 39;
 pub const E_ITER_FULL_PIPE: usize = C_ENGINE_BASE + 40;
 pub const E_ITER_REACTOR_TURNS: usize = C_ENGINE_BASE + 41;
+pub const E_ITER_CB_ERRORS: usize = C_ENGINE_BASE + 42;
 
 pub const REG_REAL: &[&str] = &[
     "signal-hook-registry (half_lock.rs, lib.rs): real code from /repo",
